@@ -201,10 +201,11 @@ double GammaQint(double x, double a)
 		};
 		if(x < tMin)
 			tMin = 0.0;
-		// Precision
-		double eps = Find_Epsilon(integrand, tMin, x, 1e-5);
-		// Integrate
-		gammaP = Integrate(integrand, tMin, x, eps);
+		// Integrate panel by panel. Each panel is one standard deviation sqrt(a) wide, so the integrand is smooth on its scale and the adaptive method cannot accept a coarse estimate that misses the narrow peak.
+		double panel_width = sqrt(a);
+		gammaP			   = 0.0;
+		for(double t1 = tMin; t1 < x; t1 += panel_width)
+			gammaP += Integrate(integrand, t1, std::min(x, t1 + panel_width), 1e-8);
 	}
 
 	// The quadrature is accurate to about 1e-5 only; keep the result a probability.
